@@ -479,7 +479,9 @@ impl<'a> Gen<'a> {
                 let et = self.scalar_ty();
                 let n = 1 + self.rng.below(3);
                 let (head, et) = if self.rng.chance(1, 3) { let lo = self.rng.below(3); (format!("{lo}usize..{}usize", lo + n), Ty::Int("usize")) } else { (self.head_expr(&Ty::Arr(Box::new(et.clone()), n), d), et) };
-                let x = self.fresh("i");
+                // the loop variable is fresh or (mutation profile) reuses the name of a visible variable, which it shadows inside the loop only
+                let outer_names: Vec<String> = self.visible().into_iter().map(|v| v.name).collect();
+                let x = if self.profile == Profile::Mutation && !outer_names.is_empty() && self.rng.chance(1, 3) { self.rng.pick(&outer_names).clone() } else { self.fresh("i") };
                 self.scopes.push(vec![]);
                 self.declare(&x, et, false);
                 let mut body = String::new();
